@@ -113,7 +113,9 @@ func EncryptStreamTo[E typez.StrOrBytes](out io.Writer, stream io.Reader, secret
 func DecryptStreamTo[E typez.StrOrBytes](out io.Writer, stream io.Reader, secret E) error {
 	saltHeader := make([]byte, aes.BlockSize)
 
-	n, err := stream.Read(saltHeader)
+	// io.Reader may return the header in pieces or together with io.EOF:
+	// a single Read is not enough.
+	n, err := io.ReadFull(stream, saltHeader)
 	if err != nil {
 		return fmt.Errorf("read header error: %w", err)
 	}
